@@ -3,8 +3,9 @@
    C01Observe.C01_full (observe (feed a [s]) = ref_run a s); it is refuted for
    the unchanged code (C01_full_is_refuted, known findings) and is proved layer
    by layer: T1 head, T2 bodies, T3 framing decision, T5 close decision, each
-   for all inputs, each against the deviation-free reference outside the
-   named known-finding classes (_partial) with a witness inside (_refuted). *)
+   for all inputs.  After the round-2 repairs the only deviation left is F10
+   (trailer lines not validated): T2 chunked is stated with that switch (_dev),
+   against the strict reference outside it (_partial), with a witness (_refuted). *)
 From Coq Require Import List NArith ZArith Bool.
 From WV Require Import Lib.PyBytes Lib.Regex Gen.GenRegex Model.Receiver Model.UrlSplit Model.Parser Model.ChanSeq.
 From WV Require Import Spec.Ref9112 Proof.C01Lib Proof.C01Framing Proof.C01Head Proof.C01Body Proof.C01Close
@@ -82,18 +83,12 @@ Theorem C01_T2_refuted_trailer :
 Proof. exact chunked_refuted_trailer. Qed.
 Print Assumptions C01_T2_refuted_trailer.
 
-Theorem C01_T2_refuted_empty_line :
-  ref_chunked no_devs f11_body = ChBad (lenN f11_body) /\
-  exists st, chunked_received chunked_init f11_body = Some (st, 7%Z) /\ c_completed st = true /\ c_error st = None.
-Proof. exact chunked_refuted_empty_line. Qed.
-Print Assumptions C01_T2_refuted_empty_line.
-
 (* ---- T3: the framing decision ---------------------------------------------- *)
 
 Theorem C01_T3_parse_header : forall a p hp index lines h1 cmd uri ver sc nl pa qu fr,
-  chunked p = false -> body p = None ->
+  chunked p = false -> body p = None -> connection_close p = false ->
   find hp CRLF = Some index ->
-  let fl := rstrip_by is_bytes_ws (firstn index hp) in
+  let fl := rstrip_by is_reqline_ws (firstn index hp) in
   has_cr_or_lf fl = false ->
   get_header_lines (skipn (index + 2) hp) = inr lines ->
   add_header_lines (headers p) lines = inr h1 ->
@@ -107,62 +102,30 @@ Theorem C01_T3_parse_header : forall a p hp index lines h1 cmd uri ver sc nl pa 
   | MChunked =>
       st = PSOk /\ chunked p' = true /\ body p' = Some (BChunked chunked_init)
       /\ headers p' = hpop (hpop h1 s_TRANSFER_ENCODING) s_CONTENT_LENGTH
-      /\ (forall v, hget h1 s_CONTENT_LENGTH = Some v -> connection_close p' = true)
+      /\ connection_close p' = model_cc h1 ver
   | MLen n =>
       st = PSOk /\ chunked p' = false /\ body p' = Some (BFixed (fixed_init n)) /\ content_length p' = n
+      /\ connection_close p' = model_cc h1 ver
   | MNone =>
       st = PSOk /\ chunked p' = false /\ body p' = None /\ content_length p' = 0
+      /\ connection_close p' = model_cc h1 ver
   end.
 Proof. exact parse_header_framing. Qed.
 Print Assumptions C01_T3_parse_header.
 
-Theorem C01_T3_framing_dev : forall h ver,
+Theorem C01_T3_framing : forall h ver,
   (forall v, hget h s_CONTENT_LENGTH = Some v -> clean v = true) ->
-  choice_framing (model_framing h ver) = framing_of dev_te_ws ver h.
-Proof. exact framing_decision_dev. Qed.
-Print Assumptions C01_T3_framing_dev.
-
-Theorem C01_T3_framing_partial : forall h ver,
-  (forall v, hget h s_CONTENT_LENGTH = Some v -> clean v = true) ->
-  te_ws_free h = true ->
-  choice_framing (model_framing h ver) = framing_of no_devs ver h.
-Proof. exact framing_decision_partial. Qed.
-Print Assumptions C01_T3_framing_partial.
-
-Theorem C01_T3_framing_refuted :
-  exists h ver, (forall v, hget h s_CONTENT_LENGTH = Some v -> clean v = true) /\
-                choice_framing (model_framing h ver) <> framing_of no_devs ver h.
-Proof. exact framing_decision_refuted. Qed.
-Print Assumptions C01_T3_framing_refuted.
+  choice_framing (model_framing h ver) = framing_of ver h.
+Proof. exact framing_decision. Qed.
+Print Assumptions C01_T3_framing.
 
 (* ---- T5: close after the message -------------------------------------------- *)
 
-Theorem C01_T5_close_dev : forall dict ver,
-  model_close ver (hget_default dict s_CONNECTION []) = close_after_of dev_persist ver dict.
-Proof. exact close_decision_dev. Qed.
-Print Assumptions C01_T5_close_dev.
-
-Theorem C01_T5_close_partial : forall dict ver,
-  close_classes ver dict = false ->
-  model_close ver (hget_default dict s_CONNECTION []) = close_after_of no_devs ver dict.
-Proof. exact close_decision_partial. Qed.
-Print Assumptions C01_T5_close_partial.
-
-Theorem C01_T5_refuted_clte :
-  close_after_of no_devs v11 f7_dict = true /\ model_close v11 (hget_default f7_dict s_CONNECTION []) = false.
-Proof. exact close_refuted_clte. Qed.
-Print Assumptions C01_T5_refuted_clte.
-
-Theorem C01_T5_refuted_te_http10 :
-  close_after_of no_devs v10 f8_dict = true /\ model_close v10 (hget_default f8_dict s_CONNECTION []) = false.
-Proof. exact close_refuted_te_http10. Qed.
-Print Assumptions C01_T5_refuted_te_http10.
-
-Theorem C01_T5_refuted_conn_list :
-  close_after_of no_devs v11 conn_list_dict = true
-  /\ model_close v11 (hget_default conn_list_dict s_CONNECTION []) = false.
-Proof. exact close_refuted_conn_list. Qed.
-Print Assumptions C01_T5_refuted_conn_list.
+Theorem C01_T5_close : forall dict ver,
+  (forall v, hget dict s_CONTENT_LENGTH = Some v -> clean v = true) ->
+  model_close ver (hget_default dict s_CONNECTION []) (model_cc dict ver) = close_after_of ver dict.
+Proof. exact close_decision. Qed.
+Print Assumptions C01_T5_close.
 
 (* ---- the refusal half --------------------------------------------------------- *)
 
@@ -217,8 +180,7 @@ Proof. exact cl_with_te_is_chunked. Qed.
 Print Assumptions C01_cl_with_te_is_chunked.
 
 Theorem C01_refuse_non_ascii_target : forall uri,
-  beqb (firstn 2 uri) [47; 47] = false -> existsb (fun x => 128 <=? x) uri = true ->
-  split_uri uri = SBadURI.
+  existsb (fun x => 128 <=? x) uri = true -> split_uri uri = SBadURI.
 Proof. exact non_ascii_target_refused. Qed.
 Print Assumptions C01_refuse_non_ascii_target.
 
@@ -242,7 +204,7 @@ Print Assumptions C01_T4_head_lines.
 (* ---- T1 + T3 over the bytes of a head ------------------------------------------------ *)
 
 Theorem C01_T13_parse_header : forall a rl flines,
-  bytes_ok rl -> has_crlf_byte rl = false -> rstrip_by is_bytes_ws rl = rl ->
+  bytes_ok rl -> has_crlf_byte rl = false -> rstrip_by is_reqline_ws rl = rl ->
   Forall bytes_ok flines -> Forall (fun l => l <> []) flines -> forallb crlf_free flines = true ->
   let '(p', st) := parse_header a parser_init (head_block rl flines) in
   match ref_head rl flines with
@@ -252,15 +214,16 @@ Theorem C01_T13_parse_header : forall a rl flines,
     | SBadURI => st = PSError EBadURI
     | SOk _ _ _ _ _ =>
       command p' = m /\ request_uri p' = t /\ version p' = v /\
-      match framing_of dev_te_ws v (combined fs) with
+      match framing_of v (combined fs) with
       | FrRefuse code => exists e, st = PSError e /\ perr_code e = code
       | FrChunked =>
           st = PSOk /\ chunked p' = true /\ body p' = Some (BChunked chunked_init)
           /\ headers p' = hpop (hpop (combined fs) s_TRANSFER_ENCODING) s_CONTENT_LENGTH
-          /\ (forall c, hget (combined fs) s_CONTENT_LENGTH = Some c -> connection_close p' = true)
+          /\ connection_close p' = model_cc (combined fs) v
       | FrLength n =>
           st = PSOk /\ chunked p' = false /\ body p' = Some (BFixed (fixed_init n)) /\ content_length p' = n
-      | FrNone => st = PSOk /\ chunked p' = false /\ body p' = None
+          /\ connection_close p' = model_cc (combined fs) v
+      | FrNone => st = PSOk /\ chunked p' = false /\ body p' = None /\ connection_close p' = model_cc (combined fs) v
       end
     | _ => True
     end
